@@ -31,6 +31,9 @@ impl TerminationModel {
         solution_size: usize,
         iterations: u64,
     ) -> Result<(), TerminationModelError> {
+        // verification hook H2 (add-only): the counters handed to the limit test are recorded
+        #[cfg(compass_verif)]
+        verif_clock::observe_test(solution_size, iterations);
         let should_terminate = self.terminate_search(start_time, solution_size, iterations)?;
         if should_terminate {
             let explanation = self.explain_termination(start_time, solution_size, iterations);
@@ -62,6 +65,10 @@ impl TerminationModel {
             T::QueryRuntimeLimit { limit, frequency } => {
                 if iteration % frequency == 0 {
                     let dur = Instant::now().duration_since(*start_time);
+                    // verification hook H2 (add-only): a scripted clock, when one is set for this
+                    // thread, replaces the elapsed wall-clock time read on the line above
+                    #[cfg(compass_verif)]
+                    let dur = verif_clock::scripted_elapsed(iteration).unwrap_or(dur);
                     Ok(dur > *limit)
                 } else {
                     Ok(false)
@@ -123,6 +130,59 @@ impl TerminationModel {
                 }
             }
         }
+    }
+}
+
+/// verification hook H2 (add-only, compiled only with `--cfg compass_verif`): lets the C10
+/// correspondence check play a scripted clock to `QueryRuntimeLimit` and read back the counters
+/// that `TerminationModel::test` was called with. Both are per thread and off by default.
+#[cfg(compass_verif)]
+pub mod verif_clock {
+    use std::cell::RefCell;
+    use std::time::Duration;
+
+    thread_local! {
+        static SCRIPT: RefCell<Option<Vec<Duration>>> = RefCell::new(None);
+        static TRACE: RefCell<Option<Vec<(usize, u64)>>> = RefCell::new(None);
+    }
+
+    /// `Some(script)`: while set, the elapsed time seen by a `QueryRuntimeLimit` test at
+    /// iteration `i` on this thread is `script[min(i, len - 1)]` (zero for an empty script)
+    /// instead of `Instant::now() - start_time`. `None`: back to the wall clock.
+    pub fn set_clock_script(script: Option<Vec<Duration>>) {
+        SCRIPT.with(|s| *s.borrow_mut() = script);
+    }
+
+    pub fn scripted_elapsed(iteration: u64) -> Option<Duration> {
+        SCRIPT.with(|s| {
+            s.borrow().as_ref().map(|v| {
+                if v.is_empty() {
+                    Duration::ZERO
+                } else {
+                    let i = std::cmp::min(iteration, (v.len() - 1) as u64) as usize;
+                    v[i]
+                }
+            })
+        })
+    }
+
+    /// start recording the `(solution_size, iterations)` arguments of every
+    /// `TerminationModel::test` call made on this thread
+    pub fn start_test_trace() {
+        TRACE.with(|t| *t.borrow_mut() = Some(Vec::new()));
+    }
+
+    /// stop recording and return what was recorded since `start_test_trace`
+    pub fn take_test_trace() -> Vec<(usize, u64)> {
+        TRACE.with(|t| t.borrow_mut().take().unwrap_or_default())
+    }
+
+    pub fn observe_test(solution_size: usize, iterations: u64) {
+        TRACE.with(|t| {
+            if let Some(v) = t.borrow_mut().as_mut() {
+                v.push((solution_size, iterations));
+            }
+        });
     }
 }
 
